@@ -16,7 +16,7 @@ RULE = (
 )
 ASSUMPTIONS = ["reference CRC (two cross-checked implementations) and own header arithmetic are the oracle"]
 GATES = ["serialize_checked", "reparse_checked", "frame_roundtrip_checked", "repr_checked", "lengths_enumerated",
-         "alias_families", "reader_roundtrip_checked", "noncanonical_source_checked"]
+         "alias_families", "reader_roundtrip_checked", "noncanonical_source_checked", "frame_as_payload"]
 
 NASTY = bytes([0x27, 0x22, 0x5C, 0x00, 0x0A, 0x0D, 0x7F, 0x80, 0xFF, 0x7B, 0x7D, 0x25])
 
@@ -172,6 +172,13 @@ def run(ctx):
         for k in (0, 1, 2, 3):
             one(ctx, base + b"\x00" * k, "trailing-zeros")
         ctx.hit("alias_families")
+    # payloads that are themselves complete valid frames (message numbers 0xD30..): must stay opaque
+    for _ in range(ctx.n(300, 6000)):
+        inner = streams.rand_defined_payload(rng) if rng.random() < 0.5 else streams.rand_unknown_payload(rng, rng.randint(2, 60))
+        pl = refcrc.frame(inner)
+        if len(pl) <= 1023:
+            one(ctx, pl, "frame-as-payload")
+            ctx.hit("frame_as_payload")
     # defined identities at natural length and padded
     ids = [i for i in refmodel.identities() if refmodel.reachable(i)]
     for k, identity in enumerate(ids):
